@@ -300,6 +300,7 @@ pub fn gen_history(
     max_steps: usize,
     pool: &[Ty],
     mk_default: &mut dyn FnMut(&Ty, &mut Rng) -> Val,
+    script: Option<&str>,
 ) -> History {
     let mut counter = 0;
     let mut fresh = |rng: &mut Rng| -> HField {
@@ -312,6 +313,35 @@ pub fn gen_history(
     let n_init = 1 + rng.below(4) as usize;
     let initial: Vec<HField> = (0..n_init).map(|_| fresh(rng)).collect();
     let mut h = History { id: id.to_string(), initial, steps: vec![] };
+    if let Some(script) = script {
+        // directed history: 'a' adds a field and targets it; 'o' / 't' / 'r' make the target optional / transient / removed.
+        // The initial target is the last initial field (the last one serialized in chunk 0), declared required.
+        let last = h.initial.len() - 1;
+        h.initial[last].optional = false;
+        let mut target = h.initial[last].name.clone();
+        for c in script.chars() {
+            match c {
+                'a' => {
+                    let mut field = fresh(rng);
+                    field.optional = false;
+                    let declared = h.states(h.steps.len()).iter().filter(|f| f.presence != Presence::Removed).count();
+                    let default = mk_default(&field.base.clone(), rng);
+                    target = field.name.clone();
+                    h.steps.push(HStep::Added { field, default, insert_at: rng.below(declared as u64 + 1) as usize });
+                }
+                'o' => h.steps.push(HStep::MadeOptional(target.clone())),
+                'r' => h.steps.push(HStep::Removed(target.clone())),
+                't' => {
+                    let st = h.states(h.steps.len());
+                    let f = st.iter().find(|f| f.name == target).unwrap();
+                    let default = mk_default(&History::field_ty(f), rng);
+                    h.steps.push(HStep::MadeTransient { name: target.clone(), default });
+                }
+                _ => {}
+            }
+        }
+        return h;
+    }
     let n_steps = 1 + rng.below(max_steps as u64) as usize;
     let mut guard = 0;
     while h.steps.len() < n_steps && guard < 100 {
